@@ -128,6 +128,7 @@ func (v *PacketDslVisitorImpl) VisitPacketDefinition(ctx *gen.PacketDefinitionCo
 	var fieldMap = make(map[string]*model.Field)
 	var lengthField *model.Field
 	var matchFields = make(map[string][]model.MatchPair)
+	var fieldLines = make(map[*model.Field]int)
 	for _, fctx := range ctx.AllFieldDefinitionWithAttribute() {
 		if fc, ok := fctx.(*gen.FieldDefinitionWithAttributeContext); ok {
 			fd := v.VisitFieldDefinitionWithAttribute(fc)
@@ -168,12 +169,45 @@ func (v *PacketDslVisitorImpl) VisitPacketDefinition(ctx *gen.PacketDefinitionCo
 			}
 			fields = append(fields, fld)
 			fieldMap[fld.Name] = fld
+			fieldLines[fld] = fctx.GetStart().GetLine()
 
 			if mf, ok := fld.Attr.(*model.MatchFieldAttribute); ok {
 				matchFields[mf.MatchKeyField.Name] = mf.MatchPairs
 			}
 		}
 	}
+
+	// references to fields of this packet must resolve: drop the referring field otherwise,
+	// so that no generator meets a nil key field or length target
+	resolved := fields[:0:0]
+	for _, f := range fields {
+		switch c := f.Attr.(type) {
+		case *model.LengthFieldAttribute:
+			if _, ok := fieldMap[c.TragetField.Name]; !ok {
+				v.BinModel.AddSyntaxError(&model.SyntaxError{
+					Line: fieldLines[f],
+					Msg:  "Unknown field " + c.TragetField.Name + " in lengthOf attribute of field " + f.Name,
+				})
+				delete(fieldMap, f.Name)
+				if lengthField == f {
+					lengthField = nil
+				}
+				continue
+			}
+		case *model.MatchFieldAttribute:
+			if _, ok := fieldMap[c.MatchKeyField.Name]; !ok {
+				v.BinModel.AddSyntaxError(&model.SyntaxError{
+					Line: fieldLines[f],
+					Msg:  "Unknown match key field " + c.MatchKeyField.Name + " for match field " + f.Name,
+				})
+				delete(fieldMap, f.Name)
+				delete(matchFields, c.MatchKeyField.Name)
+				continue
+			}
+		}
+		resolved = append(resolved, f)
+	}
+	fields = resolved
 
 	for _, f := range fields {
 		if lengthField != nil && f.Name == lengthField.Attr.(*model.LengthFieldAttribute).TragetField.Name {
